@@ -437,6 +437,21 @@ def _crossings(ev, events, out, in_loop=False):
     return out
 
 
+def owned_by(facts, b, owner_keys, _seen=frozenset()):
+    """`b` is one of the owner bodies (or a closure of one), or a helper that is reached only through them: every chain of
+    callers ends in an owner before it ends in a function nobody in the crate calls."""
+    if b.is_closure and b.root_key:
+        b = facts.bodies.get(b.root_key, b)
+    if b.key in owner_keys:
+        return True
+    if b.key in _seen or b.raw.get("pub"):
+        return False
+    cs = facts.callers().get(b.key, [])
+    if not cs:
+        return False
+    return all(owned_by(facts, cb, owner_keys, _seen | set([b.key])) for cb, bb in cs)
+
+
 def pool_entries(facts, parallel):
     """The audited places where work crosses to the pool: (body, {kind: times per way})."""
     out = []
